@@ -1053,59 +1053,6 @@ Theorem C06_relayed_request : forall e peer peer_port from rs tcp m0 x x',
 Proof. first [ exact C03.C06_relayed_request | intros; eapply C03.C06_relayed_request; eassumption ]. Qed.
 End P_C06.
 
-(* ------------------------------------------------------------------ C13 *)
-From Model Require Import Bytes Wire Uri Hdr Message Msg StaticRoute RoundRobin Pins Proxy RunProxy SpecC14 SpecProxy SpecProxy2.
-From Model.proofs Require C06 C13.
-Section P_C13.
-Import C06 C13.
-Theorem C13_own_popped_iff : forall c from m,
-  route_view (fst (mtry (try_remove_top_route c from) m)) =
-  match route_view m with
-  | EDec e1 :: rest => if designates c from e1 then rest else route_view m
-  | _ => route_view m
-  end.
-Proof. first [ exact C13.try_remove_top_route_pops_iff_own | intros; eapply C13.try_remove_top_route_pops_iff_own; eassumption ]. Qed.
-Theorem C13_next_hop_popped_iff_not_keep : forall keep m,
-  match route_view m with
-  | EDec rp :: rest =>
-      route_view (fst (next_hop_by_route keep m)) = (if keep then EDec rp :: rest else rest) /\
-      snd (next_hop_by_route keep m) =
-        match na_addr (r_addr rp) with
-        | ASip u => Ok (u_host u, sip_uri_get_port u, sip_uri_transport u)
-        | AAbs _ => Err
-        end
-  | _ => route_view (fst (next_hop_by_route keep m)) = route_view m /\ is_ok (snd (next_hop_by_route keep m)) = false
-  end.
-Proof. first [ exact C13.next_hop_by_route_pops_iff_not_keep | intros; eapply C13.next_hop_by_route_pops_iff_not_keep; eassumption ]. Qed.
-Theorem C13_route : forall e peer peer_port from rs tcp m0 x x',
-  is_request m0 = true ->
-  process_message e peer peer_port from rs tcp m0 x = Ok x' ->
-  exists extra, x_outs x' = x_outs x ++ extra /\ (msg_count extra <= 1)%nat /\
-    forall o, In o extra -> is_msg o = true ->
-      exists mo, snd o = write_message mo /\
-                 route_view mo = skipn (route_consumed (e_cfg e) from (c_keep_next_hop (e_cfg e)) (route_view m0))
-                                       (route_view m0).
-Proof. first [ exact C13.C13_route | intros; eapply C13.C13_route; eassumption ]. Qed.
-Theorem C13_route_decoded : forall e peer peer_port from rs tcp m0 x x' entries,
-  is_request m0 = true ->
-  route_view m0 = map EDec entries ->
-  process_message e peer peer_port from rs tcp m0 x = Ok x' ->
-  let own := own_of (e_cfg e) from entries in
-  let remaining := if own then tl entries else entries in
-  let k := ((if own then 1 else 0) +
-            (match remaining with _ :: _ => if c_keep_next_hop (e_cfg e) then 0 else 1 | [] => 0 end))%nat in
-  exists extra, x_outs x' = x_outs x ++ extra /\ (msg_count extra <= 1)%nat /\
-    forall o, In o extra -> is_msg o = true ->
-      exists mo, snd o = write_message mo /\ route_view mo = map EDec (skipn k entries).
-Proof. first [ exact C13.C13_route_decoded | intros; eapply C13.C13_route_decoded; eassumption ]. Qed.
-Theorem C13_route_view_grammar : forall l, l <> [] -> forallb wf_relem l = true ->
-  hval_entries (HRaw (rp_route l)) = map EDec (map C14_hdr.embed_relem l).
-Proof. first [ exact C13.route_view_grammar | intros; eapply C13.route_view_grammar; eassumption ]. Qed.
-Theorem C13_route_header_text : forall l, forallb wf_relem l = true ->
-  hval_print (HRoute (map C14_hdr.embed_relem l)) = rp_route l.
-Proof. first [ exact C13.route_header_text | intros; eapply C13.route_header_text; eassumption ]. Qed.
-End P_C13.
-
 (* ------------------------------------------------------------------ C03 *)
 From Model Require Import Bytes Wire Uri Hdr Message Msg StaticRoute RoundRobin Pins Proxy RunProxy SpecC14 SpecProxy SpecProxy2.
 From Model.proofs Require C06 C13 C03.
@@ -1639,3 +1586,61 @@ Proof. first [ exact C12.keys_differ | intros; eapply C12.keys_differ; eassumpti
 Theorem C12_accept_key_differs host port t : t <> [] -> full_addr tcp host port t <> full_addr tcp host port [].
 Proof. first [ exact C12.accept_key_differs | intros; eapply C12.accept_key_differs; eassumption ]. Qed.
 End P_C12.
+
+(* ------------------------------------------------------------------ C13 *)
+From Model Require Import Bytes Wire Uri Hdr Message Msg StaticRoute RoundRobin Pins Proxy RunProxy SpecC14 SpecProxy SpecProxy2.
+From Model.proofs Require C06 C13.
+Section P_C13.
+Import C06 C13.
+Theorem C13_own_popped_iff : forall c from m,
+  route_view (fst (mtry (try_remove_top_route c from) m)) =
+  match route_view m with
+  | EDec e1 :: rest => if designates c from e1 then rest else route_view m
+  | _ => route_view m
+  end.
+Proof. first [ exact C13.try_remove_top_route_pops_iff_own | intros; eapply C13.try_remove_top_route_pops_iff_own; eassumption ]. Qed.
+Theorem C13_next_hop_popped_iff_not_keep : forall keep m,
+  match route_view m with
+  | EDec rp :: rest =>
+      route_view (fst (next_hop_by_route keep m)) = (if keep then EDec rp :: rest else rest) /\
+      snd (next_hop_by_route keep m) =
+        match na_addr (r_addr rp) with
+        | ASip u => Ok (u_host u, sip_uri_get_port u, sip_uri_transport u)
+        | AAbs _ => Err
+        end
+  | _ => route_view (fst (next_hop_by_route keep m)) = route_view m /\ is_ok (snd (next_hop_by_route keep m)) = false
+  end.
+Proof. first [ exact C13.next_hop_by_route_pops_iff_not_keep | intros; eapply C13.next_hop_by_route_pops_iff_not_keep; eassumption ]. Qed.
+Theorem C13_route : forall e peer peer_port from rs tcp m0 x x',
+  is_request m0 = true ->
+  process_message e peer peer_port from rs tcp m0 x = Ok x' ->
+  exists extra, x_outs x' = x_outs x ++ extra /\ (msg_count extra <= 1)%nat /\
+    forall o, In o extra -> is_msg o = true ->
+      exists mo, snd o = write_message mo /\
+                 route_view mo = skipn (route_consumed (e_cfg e) from (c_keep_next_hop (e_cfg e)) (route_view m0))
+                                       (route_view m0).
+Proof. first [ exact C13.C13_route | intros; eapply C13.C13_route; eassumption ]. Qed.
+Theorem C13_route_decoded : forall e peer peer_port from rs tcp m0 x x' entries,
+  is_request m0 = true ->
+  route_view m0 = map EDec entries ->
+  process_message e peer peer_port from rs tcp m0 x = Ok x' ->
+  let own := own_of (e_cfg e) from entries in
+  let remaining := if own then tl entries else entries in
+  let k := ((if own then 1 else 0) +
+            (match remaining with _ :: _ => if c_keep_next_hop (e_cfg e) then 0 else 1 | [] => 0 end))%nat in
+  exists extra, x_outs x' = x_outs x ++ extra /\ (msg_count extra <= 1)%nat /\
+    forall o, In o extra -> is_msg o = true ->
+      exists mo, snd o = write_message mo /\ route_view mo = map EDec (skipn k entries).
+Proof. first [ exact C13.C13_route_decoded | intros; eapply C13.C13_route_decoded; eassumption ]. Qed.
+Theorem C13_route_view_grammar : forall l, l <> [] -> forallb wf_relem l = true ->
+  hval_entries (HRaw (rp_route l)) = map EDec (map C14_hdr.embed_relem l).
+Proof. first [ exact C13.route_view_grammar | intros; eapply C13.route_view_grammar; eassumption ]. Qed.
+Theorem C13_route_header_text : forall l, forallb wf_relem l = true ->
+  hval_print (HRoute (map C14_hdr.embed_relem l)) = rp_route l.
+Proof. first [ exact C13.route_header_text | intros; eapply C13.route_header_text; eassumption ]. Qed.
+Theorem C13_keep_setting_decides : forall setting env, setting <> [] ->
+  to_keep_next_hop_route setting env = truthy setting.
+Proof. first [ exact C13.C13_keep_setting_decides | intros; eapply C13.C13_keep_setting_decides; eassumption ]. Qed.
+Theorem C13_keep_env_default : forall env, to_keep_next_hop_route [] env = truthy env.
+Proof. first [ exact C13.C13_keep_env_default | intros; eapply C13.C13_keep_env_default; eassumption ]. Qed.
+End P_C13.
